@@ -541,12 +541,15 @@ Print Assumptions find_close_exact_fuel.
 
 (** * The scanner: one loop turn *)
 
-Definition plain_of (f : nat) (asm : bool) (out : string) (ins : bool) (st : scan_state)
+(** [rem] is the whole remaining line: after "/*" the scanner goes on in the text that follows
+    the "/*" in [rem], not in the tail of the text cut at the first "//" *)
+Definition plain_of (f : nat) (asm : bool) (rem out : string) (ins : bool) (st : scan_state)
            (s2 : string) (tail : option string) : scan_res :=
   let out' := out ++ s2 in
   let ins' := if String.eqb out' "" then false else ins in
   match tail with
-  | Some t => scan_loop f asm t out' ins' (mkScan true (sc_next_lit st) (sc_lits st))
+  | Some _ => scan_loop f asm (string_drop (String.length s2 + 2) rem) out' ins'
+                        (mkScan true (sc_next_lit st) (sc_lits st))
   | None => ScanOk out' ins' st
   end.
 
@@ -567,9 +570,9 @@ Lemma scan_loop_code (f : nat) (asm : bool) (rem out : string) (ins : bool) (st 
             scan_loop f asm rest (out ++ lft ++ "@" ++ string_of_N (sc_next_lit st) ++ "@") ins
                       (mkScan false (sc_next_lit st + 1) (body :: sc_lits st))
         end
-    | None => plain_of f asm out ins st s2 tail
+    | None => plain_of f asm rem out ins st s2 tail
     end
-  else plain_of f asm out ins st s2 tail.
+  else plain_of f asm rem out ins st s2 tail.
 Proof. intros H1 H2. cbn [scan_loop]. rewrite H1, H2. reflexivity. Qed.
 
 Lemma scan_loop_comment (f : nat) (asm : bool) (rem out : string) (ins : bool) (st : scan_state) :
@@ -760,68 +763,77 @@ Proof.
   - reflexivity.
 Qed.
 
-(** K2.  [before "//" post]: a line comment after the block comment is cut off first *)
+(** the text that follows the "/*" in the whole line *)
+Lemma drop_after_open (pre z : string) :
+  string_drop (String.length pre + 2) (pre ++ "/*" ++ z) = z.
+Proof.
+  replace (String.length pre + 2) with (String.length (pre ++ "/*"))
+    by (rewrite s_length_app; reflexivity).
+  rewrite <- s_app_assoc. apply drop_length_app.
+Qed.
+
+(** one turn at the opening of a block comment: the code before it is copied and the scanner goes
+    on, in comment mode, in ALL the text that follows the "/*" (whatever it contains: a "//" in
+    [z] cuts nothing) *)
+Theorem scan_loop_open : forall asm pre z st f out ins,
+  sc_in_comment st = false -> no_markers pre ->
+  forall no_trailing_slash : ends_with "/" pre = false,
+  scan_loop (S f) asm (pre ++ "/*" ++ z) out ins st
+  = scan_loop f asm z (out ++ pre) (if String.eqb (out ++ pre) "" then false else ins)
+              (mkScan true (sc_next_lit st) (sc_lits st)).
+Proof.
+  intros asm pre z st f out ins Hc [Mq [Ms [Mb Mi]]] He.
+  rewrite scan_loop_code; [|exact Hc|apply eqb_app_nonempty; discriminate].
+  (* the first "//" of the line, if any, comes after the "/*" *)
+  assert (B : before "//" (pre ++ "/*" ++ z) = pre ++ "/*" ++ before "//" z).
+  { rewrite <- !s_app_assoc. apply before_skip. apply no_slashes_around_open; assumption. }
+  rewrite B. cbv zeta.
+  rewrite (split_once_2_distinct "/" "*" pre (before "//" z) ltac:(discriminate) Mb).
+  rewrite (split_once_none _ _ Mq).
+  replace (if negb (starts_with "#include" pre) && negb asm
+           then plain_of f asm (pre ++ "/*" ++ z) out ins st pre (Some (before "//" z))
+           else plain_of f asm (pre ++ "/*" ++ z) out ins st pre (Some (before "//" z)))
+    with (plain_of f asm (pre ++ "/*" ++ z) out ins st pre (Some (before "//" z)))
+    by (destruct (negb (starts_with "#include" pre) && negb asm); reflexivity).
+  unfold plain_of. cbv zeta. rewrite drop_after_open. reflexivity.
+Qed.
+Print Assumptions scan_loop_open.
+
+(** K2.  The comment is removed whatever it contains (a "//" inside it cuts nothing), and the
+    scanner goes on with the WHOLE text after it: [post] is scanned by the next turn like any
+    other text (its own literals, comments and "//" included) *)
 Theorem block_comment_removed : forall asm pre body post st f out ins,
   sc_in_comment st = false -> no_markers pre ->
   forall no_trailing_slash : ends_with "/" pre = false,
   contains "*/" body = false ->
-  forall no_slashes_in_comment : contains "//" body = false,
-  forall post_not_slash : starts_with "/" post = false,
   scan_loop (S (S f)) asm (pre ++ "/*" ++ body ++ "*/" ++ post) out ins st =
     let out' := out ++ pre in
     let ins' := if String.eqb out' "" then false else ins in
-    let post' := before "//" post in
-    if String.eqb post' "" || String.eqb post' nl then ScanOk out' ins' st
-    else scan_loop f asm post' out' true st.
+    if String.eqb post "" || String.eqb post nl then ScanOk out' ins' st
+    else scan_loop f asm post out' true st.
 Proof.
-  intros asm pre body post st f out ins Hc [Mq [Ms [Mb Mi]]] He Cc Cs Hp.
-  rewrite scan_loop_code; [|exact Hc|apply eqb_app_nonempty; discriminate].
-  (* the first "//" of the line is the first "//" of post *)
-  assert (N : no_start "//" (pre ++ "/*" ++ body ++ "*/") post = true).
-  { replace (pre ++ "/*" ++ body ++ "*/") with ((pre ++ "/*") ++ body ++ "*/")
-      by (rewrite !s_app_assoc; reflexivity).
-    rewrite no_start_app. apply andb_true_iff. split; [apply no_slashes_around_open; assumption|].
-    rewrite no_start_app. apply andb_true_iff. split.
-    - apply no_start_2; [exact Cs|right; reflexivity].
-    - cbn [no_start append starts_with] in *. rewrite Hp. reflexivity. }
-  replace (pre ++ "/*" ++ body ++ "*/" ++ post) with ((pre ++ "/*" ++ body ++ "*/") ++ post)
-    by (rewrite !s_app_assoc; reflexivity).
-  rewrite (before_skip "//" _ post N). cbv zeta.
-  set (post' := before "//" post).
-  replace ((pre ++ "/*" ++ body ++ "*/") ++ post') with (pre ++ "/*" ++ body ++ "*/" ++ post')
-    by (rewrite !s_app_assoc; reflexivity).
-  rewrite (split_once_2_distinct "/" "*" pre (body ++ "*/" ++ post') ltac:(discriminate) Mb).
-  rewrite (split_once_none _ _ Mq).
-  replace (if negb (starts_with "#include" pre) && negb asm
-           then plain_of (S f) asm out ins st pre (Some (body ++ "*/" ++ post'))
-           else plain_of (S f) asm out ins st pre (Some (body ++ "*/" ++ post')))
-    with (plain_of (S f) asm out ins st pre (Some (body ++ "*/" ++ post')))
-    by (destruct (negb (starts_with "#include" pre) && negb asm); reflexivity).
-  unfold plain_of. cbv zeta.
+  intros asm pre body post st f out ins Hc Hm He Cc.
+  rewrite (scan_loop_open asm pre (body ++ "*/" ++ post) st (S f) out ins Hc Hm He).
   rewrite scan_loop_comment; [|reflexivity|apply eqb_app_nonempty; discriminate].
-  rewrite (split_once_2_distinct "*" "/" body post' ltac:(discriminate) Cc).
+  rewrite (split_once_2_distinct "*" "/" body post ltac:(discriminate) Cc).
   cbv zeta. cbn [sc_next_lit sc_lits]. rewrite (scan_state_eta st Hc).
-  destruct (String.eqb post' "") eqn:E1.
+  destruct (String.eqb post "") eqn:E1.
   - apply String.eqb_eq in E1. rewrite E1. cbn [orb]. apply scan_loop_empty.
-  - cbn [orb]. destruct (String.eqb post' nl) eqn:E2; [apply scan_loop_empty|reflexivity].
+  - cbn [orb]. destruct (String.eqb post nl) eqn:E2; [apply scan_loop_empty|reflexivity].
 Qed.
 Print Assumptions block_comment_removed.
 
-(** the form asked for: no line comment after the block comment *)
+(** the form asked for: something other than the newline follows the comment *)
 Theorem block_comment_removed_simple : forall asm pre body post st f out ins,
   sc_in_comment st = false -> no_markers pre ->
   forall no_trailing_slash : ends_with "/" pre = false,
   contains "*/" body = false ->
-  forall no_slashes_in_comment : contains "//" body = false,
-  forall post_not_slash : starts_with "/" post = false,
-  forall post_no_line_comment : contains "//" post = false,
   post <> "" -> post <> nl ->
   scan_loop (S (S f)) asm (pre ++ "/*" ++ body ++ "*/" ++ post) out ins st
   = scan_loop f asm post (out ++ pre) true st.
 Proof.
-  intros asm pre body post st f out ins Hc Hm He Cc Cs Hp Ps P1 P2.
+  intros asm pre body post st f out ins Hc Hm He Cc P1 P2.
   rewrite block_comment_removed by assumption. cbv zeta.
-  rewrite (before_none _ _ Ps).
   apply String.eqb_neq in P1, P2. rewrite P1, P2. reflexivity.
 Qed.
 Print Assumptions block_comment_removed_simple.
@@ -831,13 +843,11 @@ Theorem scan_line_block_comment : forall asm pre body post st,
   sc_in_comment st = false -> no_markers pre ->
   forall no_trailing_slash : ends_with "/" pre = false,
   contains "*/" body = false ->
-  forall no_slashes_in_comment : contains "//" body = false,
-  forall post_not_slash : starts_with "/" post = false,
   contains """" post = false -> contains "//" post = false -> contains "/*" post = false ->
   post <> "" -> post <> nl ->
   scan_line asm (pre ++ "/*" ++ body ++ "*/" ++ post) st = ScanOk (pre ++ post) true st.
 Proof.
-  intros asm pre body post st Hc Hm He Cc Cs Hp Pq Ps Pb P1 P2.
+  intros asm pre body post st Hc Hm He Cc Pq Ps Pb P1 P2.
   unfold scan_line.
   assert (L : exists f, String.length (pre ++ "/*" ++ body ++ "*/" ++ post) = S (S f)).
   { rewrite s_length_app. cbn [append String.length]. rewrite s_length_app. cbn [append String.length].
@@ -850,23 +860,80 @@ Proof.
 Qed.
 Print Assumptions scan_line_block_comment.
 
-(** K3: the defect.  The "//" inside the comment cuts the line before the scanner looks for the
-    end of the comment: the declaration is lost and the scanner stays in comment mode *)
-Example block_comment_slashes_refuted :
-  scan_line false ("/* http://x.org */ char a;" ++ nl) st0 = ScanOk "" false (mkScan true 0 []).
-Proof. vm_compute. reflexivity. Qed.
+(** the same line followed by a line comment: the block comment and the line comment go, the
+    code on both sides of the block comment stays *)
+Theorem scan_line_block_then_line_comment : forall asm pre body mid cmt st,
+  sc_in_comment st = false -> no_markers pre ->
+  forall no_trailing_slash : ends_with "/" pre = false,
+  contains "*/" body = false ->
+  contains """" mid = false -> contains "//" mid = false -> contains "/*" mid = false ->
+  forall mid_no_trailing_slash : ends_with "/" mid = false,
+  mid <> "" ->
+  scan_line asm (pre ++ "/*" ++ body ++ "*/" ++ mid ++ "//" ++ cmt) st = ScanOk (pre ++ mid) true st.
+Proof.
+  intros asm pre body mid cmt st Hc Hm He Cc Mq Ms Mb Me M1.
+  unfold scan_line.
+  assert (L : exists f, String.length (pre ++ "/*" ++ body ++ "*/" ++ mid ++ "//" ++ cmt) = S (S f)).
+  { rewrite !s_length_app. cbn [String.length].
+    exists (String.length pre + String.length body + String.length mid + String.length cmt + 4). lia. }
+  destruct L as [f ->].
+  rewrite block_comment_removed_simple; [|exact Hc|exact Hm|exact He|exact Cc| |].
+  - rewrite scan_loop_code; [|exact Hc|apply eqb_app_nonempty; discriminate].
+    unfold before. rewrite (split_once_2_same _ mid cmt Ms Me). cbv zeta.
+    rewrite (split_once_none _ _ Mb), (split_once_none _ _ Mq).
+    unfold plain_of. cbn [append].
+    rewrite eqb_app_nonempty by exact M1.
+    destruct (negb (starts_with "#include" mid) && negb asm); reflexivity.
+  - destruct mid; [contradiction|discriminate].
+  - destruct mid as [|c [|d mid]]; [contradiction| |].
+    + intros E. inversion E.
+    + discriminate.
+Qed.
+Print Assumptions scan_line_block_then_line_comment.
 
-(** the same cut happens to a literal that follows a block comment on the line *)
-Example literal_after_block_comment_refuted :
-  scan_line false ("/* c */ s = " ++ QQ ++ "http://x" ++ QQ ++ ";" ++ nl) st0 = ScanUnterminated
+(** K3: the repaired defect.  A "//" inside the comment no longer cuts the line before the
+    scanner looks for the end of the comment: the comment is removed and the declaration that
+    follows it survives (the unrepaired scanner returned [ScanOk "" false (mkScan true 0 [])]) *)
+Example block_comment_slashes_fixed :
+  scan_line false ("/* see http://x.org */ char a;" ++ nl) st0 = ScanOk (" char a;" ++ nl) true st0
+  /\ scan_line false ("a /* http://x */ b // c" ++ nl) st0 = ScanOk "a  b " true st0.
+Proof. vm_compute. split; reflexivity. Qed.
+
+(** a literal that follows a block comment on the line is extracted like on a line of its own
+    (the unrepaired scanner answered [ScanUnterminated]) *)
+Example literal_after_block_comment_fixed :
+  scan_line false ("/* c */ s = " ++ QQ ++ "http://x" ++ QQ ++ ";" ++ nl) st0
+  = ScanOk (" s = @0@;" ++ nl) true (mkScan false 1 ["http://x"])
   /\ scan_line false ("s = " ++ QQ ++ "http://x" ++ QQ ++ ";" ++ nl) st0
      = ScanOk ("s = @0@;" ++ nl) true (mkScan false 1 ["http://x"]).
 Proof. vm_compute. split; reflexivity. Qed.
 
-(** why [post_not_slash] and [no_trailing_slash] are there *)
+(** the general form of the second example: code, a block comment, code with a literal *)
+Theorem literal_after_block_comment : forall pre cbody mid body post st f out ins,
+  sc_in_comment st = false -> no_markers pre ->
+  forall no_trailing_slash : ends_with "/" pre = false,
+  contains "*/" cbody = false ->
+  no_markers mid -> scannable body ->
+  scan_loop (S (S (S f))) false (pre ++ "/*" ++ cbody ++ "*/" ++ mid ++ QQ ++ body ++ QQ ++ post) out ins st
+  = scan_loop f false post ((out ++ pre) ++ mid ++ "@" ++ string_of_N (sc_next_lit st) ++ "@") true
+              (mkScan false (sc_next_lit st + 1) (body :: sc_lits st)).
+Proof.
+  intros pre cbody mid body post st f out ins Hc Hm He Cc Hmid Hsc.
+  rewrite block_comment_removed_simple; [|exact Hc|exact Hm|exact He|exact Cc| |].
+  - apply scan_literal_opaque; assumption.
+  - destruct mid; discriminate.
+  - destruct mid as [|c [|d mid]]; discriminate.
+Qed.
+Print Assumptions literal_after_block_comment.
+
+(** a "/" right after the comment needs no hypothesis any more: it is an operator, as in C
+    (C replaces the comment by a space, the scanner by nothing; the unrepaired scanner saw a
+    "//" here and stayed in comment mode) *)
 Example block_comment_then_slash :
-  scan_line false ("a /* c *// x" ++ nl) st0 = ScanOk "a " true (mkScan true 0 []).
+  scan_line false ("a /* c *// x" ++ nl) st0 = ScanOk ("a / x" ++ nl) true st0.
 Proof. vm_compute. reflexivity. Qed.
+(** why [no_trailing_slash] is still there: "//*" is the start of a line comment, in the scanner
+    and in C alike (the "//" comes first) *)
 Example slash_then_block_comment :
   scan_line false ("a //* c */ x" ++ nl) st0 = ScanOk "a " true st0.
 Proof. vm_compute. reflexivity. Qed.
@@ -876,25 +943,12 @@ Theorem comment_spans_lines_open : forall asm a c st,
   sc_in_comment st = false -> no_markers a ->
   forall no_trailing_slash : ends_with "/" a = false,
   contains "*/" c = false ->
-  forall no_slashes_in_comment : contains "//" c = false,
   scan_line asm (a ++ "/*" ++ c) st
   = ScanOk a (negb (String.eqb a "")) (mkScan true (sc_next_lit st) (sc_lits st)).
 Proof.
-  intros asm a c st Hc [Mq [Ms [Mb Mi]]] He Cc Cs.
+  intros asm a c st Hc Hm He Cc.
   unfold scan_line. rewrite Hc. cbn [negb].
-  rewrite scan_loop_code; [|exact Hc|apply eqb_app_nonempty; discriminate].
-  assert (W : contains "//" (a ++ "/*" ++ c) = false).
-  { rewrite <- s_app_assoc. rewrite contains_skip; [exact Cs|].
-    apply no_slashes_around_open; assumption. }
-  rewrite (before_none _ _ W). cbv zeta.
-  rewrite (split_once_2_distinct "/" "*" a c ltac:(discriminate) Mb).
-  rewrite (split_once_none _ _ Mq).
-  replace (if negb (starts_with "#include" a) && negb asm
-           then plain_of (S (String.length (a ++ "/*" ++ c))) asm "" true st a (Some c)
-           else plain_of (S (String.length (a ++ "/*" ++ c))) asm "" true st a (Some c))
-    with (plain_of (S (String.length (a ++ "/*" ++ c))) asm "" true st a (Some c))
-    by (destruct (negb (starts_with "#include" a) && negb asm); reflexivity).
-  unfold plain_of. cbv zeta. cbn [append].
+  rewrite (scan_loop_open asm a c st _ "" true Hc Hm He). cbn [append].
   replace (if String.eqb a "" then false else true) with (negb (String.eqb a ""))
     by (destruct (String.eqb a ""); reflexivity).
   destruct (string_dec c "") as [->|Hne].
